@@ -29,7 +29,7 @@ LEVEL = "exploration"
 RULE = (
     "exhaustive histories ending in a fetch over {get(n), select([n, m]), put(n, v), del(n), swap loader} for 2 names x 2 versions "
     "(length <= 4 quick / <= 5 thorough, plus length 6 on cache sizes 1 and 2: full alphabet on DictLoader, get/put/del only on the other loaders) and 3 names x 2 versions (length <= 3, plus length 4 on DictLoader with "
-    "cache size 2, quick / <= 4 thorough) "
+    "cache size 2, quick / <= 4, plus length 5 on DictLoader with cache size 2, thorough) "
     "x cache sizes {0, 1, 2, -1} x auto_reload {on, off} x {DictLoader, FunctionLoader returning str, FunctionLoader with an "
     "up-to-date callback, FileSystemLoader with mtimes forced from a counter}; plus Hypothesis RuleBasedStateMachine histories of "
     "up to 100 steps over 3 names x 3 versions.  Non-trivial = the history fetches a key again after its source was changed or "
@@ -514,6 +514,7 @@ def all_enumerated(tier):
     return itertools.chain(
         histories(2, 2, range(1, 6)),
         histories(3, 2, range(1, 5)),
+        histories(3, 2, [5], kinds=["dict"], caches=[2]),
         histories(2, 2, [6], kinds=["dict"], caches=[1, 2]),
         histories(2, 2, [6], kinds=["func", "func_utd", "fs"], caches=[1, 2], full=False),
     )
@@ -525,7 +526,7 @@ def run_shard(spec, ctx):
     try:
         core.enum_shard(expand(core.sliced(all_enumerated(ctx.tier), ctx.index, ctx.nshards)), check_case, ctx, rec=rec)
         if not rec.violations:
-            _run_machine(ctx, rec, ctx.pick(10, 120), 100, "machine")
+            _run_machine(ctx, rec, ctx.pick(10, 200), 100, "machine")
     finally:
         _keep_dirs[0] = False
         remove_workdir()
